@@ -72,13 +72,13 @@ Example C23_nonvacuous :
   /\ some_path_raw w_deps [] [5%N] [3%N] = Some [3; 0; 2; 4; 5]%N
   /\ some_path_raw w_deps [0%N] [3%N] [5%N] = Some [3; 1; 4; 5]%N
   /\ some_path_raw w_deps [] [0%N] [1%N] = Some []
-  /\ deps_query w_deps [3%N] false 3 = Some [(0, 0); (1, 2); (2, 4); (0, 1)]%Z%N
-  /\ deps_query w_deps [3%N] false (-1) = Some [(0, 0); (1, 2); (2, 4); (3, 5); (0, 1)]%Z%N
+  /\ deps_query w_deps [3%N] false 3 = Some [(0%Z, 0%N); (1%Z, 2%N); (2%Z, 4%N); (0%Z, 1%N)]
+  /\ deps_query w_deps [3%N] false (-1) = Some [(0%Z, 0%N); (1%Z, 2%N); (2%Z, 4%N); (3%Z, 5%N); (0%Z, 1%N)]
   /\ NoDup (map fst w_rev) /\ Forall (in_graph w_rev) [5%N]
   /\ Forall2 (fun r ch => Permutation ch (children w_rev r)) [4%N] [[0%N]]
   /\ revdeps_with w_rev [5%N] [[]] false 3 = Some [4; 1; 2]%N
   /\ revdeps_with w_rev [5%N] [[]] false (-1) = Some [4; 1; 2; 3]%N
-  /\ revdeps_with w_rev [4%N] [[0%N]] false 1 = Some [1; 2]%N.
+  /\ revdeps_with w_rev [4%N] [[0%N]] false 1 = Some [2; 1]%N.
 Proof.
   repeat split; try (vm_compute; reflexivity).
   - constructor; [vm_compute; discriminate | constructor].
